@@ -195,9 +195,17 @@ def extract_all(repo=None, use_cache=True, verbose=False):
     os.replace(tmp, merged)
     # prune old caches (keep 3 most recent)
     root = os.path.join(BUILD, "facts")
-    ds = sorted((os.path.getmtime(os.path.join(root, d)), d) for d in os.listdir(root))
-    for _, d in ds[:-6]:
-        subprocess.run(["rm", "-rf", os.path.join(root, d)])
+    now = time.time()
+    ds = []
+    for d in os.listdir(root):
+        try:
+            ds.append((os.path.getmtime(os.path.join(root, d)), d))
+        except OSError:
+            pass
+    ds.sort()
+    for mt, d in ds[:-12]:
+        if now - mt > 900:      # never touch a directory another (parallel) extraction may still be writing
+            subprocess.run(["rm", "-rf", os.path.join(root, d)])
     return merged, th, True
 
 
